@@ -1111,8 +1111,10 @@ namespace xsimd
             batch_type x = scaled & ::xsimd::bitwise_cast<T>(~m1f);
             exp = (r1 >> constants::nmb<batch_type>()) - constants::maxexponentm1<batch_type>();
             exp = select(batch_bool_cast<typename i_type::value_type>(is_den), exp - i_type(constants::nmb<batch_type>()), exp);
-            exp = select(batch_bool_cast<typename i_type::value_type>(self != batch_type(0.)), exp, i_type(typename i_type::value_type(0)));
-            return select((self != batch_type(0.)), x | ::xsimd::bitwise_cast<T>(constants::mask2frexp<batch_type>()), batch_type(0.));
+            // +-0, +-inf and NaN have no mantissa/exponent decomposition: they are returned unchanged with a zero exponent
+            auto regular = (self != batch_type(0.)) && (abs(self) < constants::infinity<batch_type>());
+            exp = select(batch_bool_cast<typename i_type::value_type>(regular), exp, i_type(typename i_type::value_type(0)));
+            return select(regular, x | ::xsimd::bitwise_cast<T>(constants::mask2frexp<batch_type>()), self);
         }
 
         // from bool
